@@ -23,7 +23,10 @@ DecCross == Cross2(Decs, Range(0, 12), LAMBDA p, n : [op |-> "TextDec", pkg |-> 
 \* malformed padding, CR/LF insertions, truncations
 Malform(s) == << s \o << 61 >>, << 61 >> \o s, (IF Len(s) > 0 THEN SubSeq(s, 1, Len(s) - 1) ELSE s), s \o << 13, 10 >>, << 10 >> \o s,
                  (IF Len(s) > 2 THEN SubSeq(s, 1, 2) \o << 13 >> \o SubSeq(s, 3, Len(s)) ELSE s), (IF Len(s) > 2 THEN SubSeq(s, 1, 2) \o << 61 >> \o SubSeq(s, 3, Len(s)) ELSE s),
-                 s \o << 61, 61, 61, 61, 61, 61, 61, 61 >>, s \o << 32 >>, s \o << 0 >> >>
+                 s \o << 61, 61, 61, 61, 61, 61, 61, 61 >>, s \o << 32 >>, s \o << 0 >>,
+                 \* line breaks between the (possibly padded) string and trailing junk: the junk is as foreign as without them
+                 s \o << 13, 10 >> \o << 33 >>, s \o << 13, 10, 13, 10, 13, 10, 13, 10 >> \o << 33 >>, s \o << 10 >> \o << 97, 98, 99, 100, 101, 102, 103 >>,
+                 s \o << 10, 10, 10, 10, 10, 10, 10, 10, 10 >> \o << 97 >>, s \o << 13, 10, 13, 10, 13, 10, 13, 10 >> \o << 61 >> >>
 DecMal == Concat(Cross2(Decs, Range(0, 9), LAMBDA p, n : SeqMap(LAMBDA s : [op |-> "TextDec", pkg |-> p[1], fn |-> p[2], in |-> s], Malform(EncOf(p, Rnd(Seed, n, n + 7))))))
 \* all 1-character strings and, for 2 characters, every value against a fixed valid first character (via mutate)
 MutVecs ==
